@@ -18,6 +18,7 @@ PROP = {
              "Non-trivial: a look-up of a transaction whose pin is live, with >=1 successful reload and >=1 vacuum pass since its request "
              "(burst: a live-pin look-up that observed an older version than the current one after >=1 vacuum pass). distinct = canonical JSON of the history"),
     "assumptions": [
+        "the gateway's log level (LOG_LEVEL: off in three cases of eight, else error / info / debug / trace; what is logged is thrown away, what a log statement does to build its arguments happens) is a generated part of every case of TestHistories: no answer may depend on it; a failing case reports its level",
         "transaction ids are unique per transaction (HAProxy unique-id); two *first* look-ups of the same id never race (the request is handled before its response exists)",
         "retention period = 30 s as the statement's quantifier says; it is not read from the code. At exactly request+30 s, and later, the pinned version, the current one or any version created in between is accepted (statement silent); nothing else, in particular never the empty fallback",
         "in one history of three every revision of policies.yaml is deployed with the same modification time (cp -p, rsync -t, archives, reproducible artefacts; revisions v1..v9 have the same size anyway): a reload must still read the file",
